@@ -22,7 +22,7 @@ TECHNIQUE = "Lean 4 proof (case analysis over the cascade, best-fit greedy chara
 
 
 def generate(rng, tier):
-    n, steps = {"quick": (40, 25), "thorough": (600, 50), "search": (150, 30)}.get(tier, (40, 25))
+    n, steps = {"quick": (100, 25), "thorough": (600, 50), "search": (150, 30)}.get(tier, (40, 25))
     cases = []
     for i in range(n):
         cases.append(history(rng, ["visual", "bvisual"][i % 2], steps, api_mix=(i % 5 == 0)))
